@@ -7,6 +7,7 @@
 -/
 import RSVerif.Proofs.Errors
 import RSVerif.Proofs.FlatSpec
+import RSVerif.Proofs.SrcWorkSpec
 
 namespace RS
 
@@ -102,5 +103,74 @@ theorem flat_memory_panic_free_iff (f : Flat) (hwf : f.WF) (hn : 0 < f.len64) (a
   ⟨Flat.shard_some_iff f hwf hn a, Flat.dist2_some_iff f hwf hn a b, Flat.dist4_some_iff f hwf hn a b,
    Flat.zero_some_iff f hwf hn a b, Flat.copyWithin_some_iff f hwf hn a b c,
    Flat.flat2_some_iff f hwf hn a b c, Flat.splitAt_some_iff f hwf hn a⟩
+
+/-! ### the same, about the SOURCE as translated today (Gen/SrcWork.lean, regenerated on every run) -/
+
+open RS.RustW RS.SrcW in
+/-- the translated `add_*_shard` methods: an error names a precondition that is really violated (and the
+    checks come in the documented order) -/
+theorem source_errors_truthful {σ : Type} (ops : ShardsOps σ) (i : Nat) (sh : Array Nat) (e : WErr) :
+    (∀ st st' : EncoderWorkS σ, EncoderWork_add_original_shard ops st sh = some (Res.Err e, st') →
+      (e = WErr.TooManyOriginalShards st.original_count ∧ st.original_received_count = st.original_count) ∨
+      (e = WErr.DifferentShardSize st.shard_bytes sh.size ∧ sh.size ≠ st.shard_bytes ∧
+        st.original_received_count ≠ st.original_count)) ∧
+    (∀ st st' : DecoderWorkS σ, DecoderWork_add_original_shard ops st i sh = some (Res.Err e, st') →
+      (e = WErr.InvalidOriginalShardIndex st.original_count i ∧ st.original_count ≤ i) ∨
+      (e = WErr.DuplicateOriginalShardIndex i ∧ i < st.original_count ∧
+        BitSet.get st.received (st.original_base_pos + i) = true) ∨
+      (e = WErr.DifferentShardSize st.shard_bytes sh.size ∧ sh.size ≠ st.shard_bytes ∧ i < st.original_count ∧
+        BitSet.get st.received (st.original_base_pos + i) = false)) ∧
+    (∀ st st' : DecoderWorkS σ, DecoderWork_add_recovery_shard ops st i sh = some (Res.Err e, st') →
+      (e = WErr.InvalidRecoveryShardIndex st.recovery_count i ∧ st.recovery_count ≤ i) ∨
+      (e = WErr.DuplicateRecoveryShardIndex i ∧ i < st.recovery_count ∧
+        BitSet.get st.received (st.recovery_base_pos + i) = true) ∨
+      (e = WErr.DifferentShardSize st.shard_bytes sh.size ∧ sh.size ≠ st.shard_bytes ∧ i < st.recovery_count ∧
+        BitSet.get st.received (st.recovery_base_pos + i) = false)) :=
+  ⟨fun st st' h => srcE_add_err_truthful ops st st' sh e h,
+   fun st st' h => srcD_addo_err_truthful ops st st' i sh e h,
+   fun st st' h => srcD_addr_err_truthful ops st st' i sh e h⟩
+
+open RS.RustW RS.SrcW in
+/-- valid use succeeds, and records exactly what happened: a call that violates no precondition is `Ok`,
+    bumps its counter by one, sets exactly its bit and stores the shard at its position; `encode_begin` /
+    `decode_begin` decide by the counters alone -/
+theorem source_valid_calls_succeed {σ : Type} (ops : ShardsOps σ) (i : Nat) (sh : Array Nat) (m : σ) :
+    (∀ st : DecoderWorkS σ, i < st.original_count → BitSet.get st.received (st.original_base_pos + i) = false →
+      sh.size = st.shard_bytes → ops.insert st.shards (st.original_base_pos + i) sh = some m →
+      st.original_base_pos + i < st.received.size → st.original_received_count + 1 < 18446744073709551616 →
+      st.original_base_pos + i < 18446744073709551616 →
+      DecoderWork_add_original_shard ops st i sh =
+        some (Res.Ok (), { st with shards := m, original_received_count := st.original_received_count + 1,
+                                     received := st.received.setIfInBounds (st.original_base_pos + i) true })) ∧
+    (∀ st : DecoderWorkS σ, i < st.recovery_count → BitSet.get st.received (st.recovery_base_pos + i) = false →
+      sh.size = st.shard_bytes → ops.insert st.shards (st.recovery_base_pos + i) sh = some m →
+      st.recovery_base_pos + i < st.received.size → st.recovery_received_count + 1 < 18446744073709551616 →
+      st.recovery_base_pos + i < 18446744073709551616 →
+      DecoderWork_add_recovery_shard ops st i sh =
+        some (Res.Ok (), { st with shards := m, recovery_received_count := st.recovery_received_count + 1,
+                                     received := st.received.setIfInBounds (st.recovery_base_pos + i) true })) ∧
+    (∀ st : DecoderWorkS σ, st.original_received_count + st.recovery_received_count < 18446744073709551616 →
+      DecoderWork_decode_begin ops st = some (
+        (if st.original_received_count + st.recovery_received_count < st.original_count then
+          Res.Err (WErr.NotEnoughShards st.original_count st.original_received_count st.recovery_received_count)
+         else if st.original_received_count = st.original_count then Res.Ok none
+         else Res.Ok (some ((), st.original_count, st.recovery_count, ()))), st)) :=
+  ⟨fun st a b c d e f g => srcD_addo_ok ops st i sh m a b c d e f g,
+   fun st a b c d e f g => srcD_addr_ok ops st i sh m a b c d e f g,
+   fun st hb => srcD_begin_spec ops st hb⟩
+
+open RS.RustW RS.SrcW in
+/-- the translated source simulates the hand-written model: on states with the same bookkeeping the two
+    `add_original_shard` give the same verdict and the same error value, and after an accepted call the
+    same counters and the same bitmap -/
+theorem source_simulates_model {σ : Type} (ops : ShardsOps σ) (st : DecoderWorkS σ) (w : DecWork) (i : Nat)
+    (sh : Array Nat) (hb : DecBook st w) (hu : st.original_base_pos + i < 18446744073709551616) :
+    (∀ e st', DecoderWork_add_original_shard ops st i sh = some (Res.Err e, st') →
+      w.addOriginal i sh = .err (errOfW e)) ∧
+    (∀ e, w.addOriginal i sh = .err e →
+      ∃ e', DecoderWork_add_original_shard ops st i sh = some (Res.Err e', st) ∧ errOfW e' = e) ∧
+    (∀ st', DecoderWork_add_original_shard ops st i sh = some (Res.Ok (), st') →
+      ∀ w', w.addOriginal i sh = .ok w' → DecBook st' w') :=
+  srcD_addo_simulates ops st w i sh hb hu
 
 end RS
